@@ -1,0 +1,31 @@
+//go:build verif
+
+package generator
+
+// Contracts for the deductive verifier in /verif (govc). Comment-only file: with or without
+// the `verif` build tag it adds no declaration to the package.
+
+// ---------------------------------------------------------------- C19
+
+// emitted(D, k): the text written for the first k declarations of D — the content of each
+// declaration whose ID has not occurred before, followed by a newline.
+//@ recfunc emitted(D seq[Declaration], k int) string = ite(k <= 0, "",
+//@     ite(exists j int :: 0 <= j && j < k-1 && D[j].ID == D[k-1].ID,
+//@         emitted(D, k-1),
+//@         emitted(D, k-1) ++ D[k-1].Content ++ str1('\n')))
+
+//@ func WriteDeclarations
+//@   props C19
+//@   modifies H$S$github.com.benoitkugler.gomacro.generator.Declaration
+//@   -- frame: the slice is permuted in place, nothing is lost or invented
+//@   ensures len(decls) == len(old(decls))
+//@   ensures forall i int :: 0 <= i && i < len(decls) ==> (exists j int :: 0 <= j && j < len(decls) && decls[i] == old(decls[j]))
+//@   ensures forall j int :: 0 <= j && j < len(decls) ==> (exists i int :: 0 <= i && i < len(decls) && decls[i] == old(decls[j]))
+//@   -- all priority declarations before all others, each group in increasing ID order
+//@   ensures forall i, j int :: 0 <= i && i < j && j < len(decls) ==> (decls[i].Priority || !decls[j].Priority)
+//@   ensures forall i, j int :: 0 <= i && i < j && j < len(decls) && decls[i].Priority == decls[j].Priority ==> !(decls[j].ID < decls[i].ID)
+//@   -- the content of each distinct ID exactly once (its first occurrence in that order), followed by a newline
+//@   ensures result == emitted(contents(decls), len(decls))
+//@   loop 1 index n
+//@   loop 1 invariant out == emitted(contents(decls), n)
+//@   loop 1 invariant forall s string :: keys[s] <==> (exists j int :: 0 <= j && j < n && decls[j].ID == s)
